@@ -1411,6 +1411,9 @@ def calculate_S_over_mu(X1, X2):
 
 I5eo = (I5 * eo)
 biv3dmask = (e12+e13+e23)
+# a unit rotor in general position (a screw motion), used to leave special positions
+_generic_rotor = ((1 + 0.5*einf*(0.3*e1 - 0.7*e2 + 1.1*e3))
+                  * (math.cos(0.5) - math.sin(0.5)*(2*e12 + e13 - 2*e23)/3)).normal()
 
 
 @numba.njit
@@ -1435,7 +1438,15 @@ def rotor_between_objects_root(X1, X2):
         C = 1 + gamma*(X2 * X1)
         if abs(C.value[0]) < 1E-6:
             R = (I5eo * X21)(2).normal()
-            R2 = rotor_between_objects_root(apply_rotor(X1, R), X2).normal()
+            X3 = apply_rotor(X1, R)
+            C3 = 1 + gamma*(X2 * X3)
+            if abs((C3 * ~C3).value[0]) < 1E-6:
+                # the half turn leaves the pair in a position of the same kind
+                # (e.g. point pairs that share a point): move X1 by a fixed
+                # rotor in general position instead
+                R = _generic_rotor
+                X3 = apply_rotor(X1, R)
+            R2 = rotor_between_objects_root(X3, X2).normal()
             return (R2 * R).normal()
         return pos_twiddle_root(C)[0].normal()
     else:
